@@ -5,6 +5,7 @@
 //   drv_c05 freeze-handles <dir> <seed> <n>  (run ONCE, by hand: Edgebreaker streams with two topology-split events at one symbol, appended to /verif/corpus_big)
 //   drv_c05 freeze-skip <dir>           (run ONCE per corpus directory, by hand: digests of the decodes with the attribute transform skipped)
 //   drv_c05 freeze-wide-charts <dir> <seed>  (run ONCE, by hand: 5-byte varints, textured grids cut into UV charts; appended to /verif/corpus_big)
+//   drv_c05 freeze-islands <dir> <seed> <n>  (run ONCE, by hand: textured grids with a UV chart per triangle; appended to /verif/corpus_big)
 //   drv_c05 check  <dir> <testdata>     decode every frozen stream and every testdata/*.drc; one "Frozen" record per stream
 //   drv_c05 versions <dir>              rewrite the header version of a subset of streams to every (major, minor) in 0..3 x 0..5
 #include <dirent.h>
@@ -272,6 +273,53 @@ static int run_freeze_wide_charts(const std::string &dir, uint64_t seed) {
   return 0;
 }
 
+// More textured grids, this time with a chart id per TRIANGLE (random, or in runs), random diagonals and a shuffled face order: UV islands of every
+// shape, so that the attribute traversal enters a new island through a face with one, two or no corners coded before.
+static int run_freeze_islands(const std::string &dir, uint64_t seed, long n) {
+  vrt::Rng r(seed);
+  std::ofstream idx(dir + "/index.ndjson", std::ios::app);
+  long k = 0;
+  for (long i = 0; i < n; ++i) {
+    const int w = r.range(2, 6), h = r.range(2, 6), ncharts = r.range(2, 3);
+    std::vector<std::array<int, 3>> tris;
+    for (int y = 0; y < h; ++y) for (int x = 0; x < w; ++x) {
+      const int a = y * (w + 1) + x, b = a + 1, c = a + (w + 1), d = c + 1;
+      if (r.coin()) { tris.push_back({a, b, c}); tris.push_back({b, d, c}); } else { tris.push_back({a, b, d}); tris.push_back({a, d, c}); }
+    }
+    if (r.coin()) for (size_t t = tris.size(); t > 1; --t) std::swap(tris[t - 1], tris[(size_t)r.range(0, (int)t - 1)]);
+    std::vector<int> chart(tris.size());
+    int cur = 0;
+    const int style = r.range(0, 2);
+    for (size_t t = 0; t < tris.size(); ++t) { if (style == 0) cur = r.range(0, ncharts - 1); else if (r.coin(1, style == 1 ? 3 : 6)) cur = (cur + 1) % ncharts; chart[t] = cur; }
+    Geom g; g.is_mesh = true; g.pc.reset(new Mesh());
+    Mesh *m = g.mesh();
+    const int nf = (int)tris.size(), nc = 3 * nf, nv = (w + 1) * (h + 1);
+    m->set_num_points(nc);
+    AttDesc dp{GeometryAttribute::POSITION, DT_FLOAT32, 3, false, false, nv};
+    const int ip = add_attribute(m, dp, nc);
+    for (int v = 0; v < nv; ++v) { const float p[3] = {(float)(v % (w + 1)), (float)(v / (w + 1)), (float)((v * 7) % 5) * 0.21f}; m->attribute(ip)->SetAttributeValue(AttributeValueIndex(v), p); }
+    AttDesc dt{GeometryAttribute::TEX_COORD, DT_FLOAT32, 2, false, false, nv * ncharts};
+    const int it = add_attribute(m, dt, nc);
+    for (int c = 0; c < ncharts; ++c) for (int v = 0; v < nv; ++v) { const float t[2] = {(float)(v % (w + 1)) / (w + 1) * 0.3f + 0.33f * c, (float)(v / (w + 1)) / (h + 1) * (0.4f + 0.25f * c)}; m->attribute(it)->SetAttributeValue(AttributeValueIndex(c * nv + v), t); }
+    for (int t = 0; t < nf; ++t) for (int q = 0; q < 3; ++q) { m->attribute(ip)->SetPointMapEntry(PointIndex(3 * t + q), AttributeValueIndex(tris[t][q])); m->attribute(it)->SetPointMapEntry(PointIndex(3 * t + q), AttributeValueIndex(chart[t] * nv + tris[t][q])); }
+    for (int f = 0; f < nf; ++f) { Mesh::Face fc; for (int q = 0; q < 3; ++q) fc[q] = PointIndex(3 * f + q); m->AddFace(fc); }
+    m->DeduplicatePointIds();
+    Opt o; o.expert = true; o.method = 1; o.es = o.ds = (int)(i % 4); o.submethod = (i % 5 == 0) ? 2 : -1;
+    o.qbits = {r.range(9, 14), r.range(8, 12)};
+    Encoded e = encode(g, o);
+    if (!e.ok) continue;
+    Decoded d = decode(e.bytes.data(), e.bytes.size());
+    if (!d.ok) continue;
+    char name[64]; snprintf(name, sizeof name, "i%04ld.drc", k++);
+    std::ofstream f(dir + "/" + name, std::ios::binary); f.write(e.bytes.data(), e.bytes.size());
+    idx << "{\"file\":\"" << name << "\",\"digest\":" << h64(geom_digest(*d.pc, d.is_mesh)) << ",\"np\":" << d.pc->num_points() << ",\"nf\":" << d.mesh()->num_faces()
+        << ",\"gt\":\"mesh\",\"method\":1,\"es\":" << o.es << ",\"pred\":" << o.pred << ",\"builtin\":true,\"what\":\"uv islands " << w << "x" << h << " charts=" << ncharts << " style=" << style
+        << "\",\"bytes\":" << e.bytes.size() << "}\n";
+  }
+  fprintf(stderr, "froze %ld island streams\n", k);
+  return 0;
+}
+
 static void check_one(const std::string &label, const std::vector<char> &bytes, const vrt::J *frozen) {
   Decoded d = decode(bytes.data(), bytes.size());
   const uint64_t h = d.ok ? geom_digest(*d.pc, d.is_mesh) : 0;
@@ -386,6 +434,7 @@ int main(int argc, char **argv) {
   if (argc >= 4 && !strcmp(argv[1], "freeze-big")) return run_freeze_big(argv[2], strtoull(argv[3], 0, 10));
   if (argc >= 5 && !strcmp(argv[1], "freeze-handles")) return run_freeze_handles(argv[2], strtoull(argv[3], 0, 10), atol(argv[4]));
   if (argc >= 4 && !strcmp(argv[1], "freeze-wide-charts")) return run_freeze_wide_charts(argv[2], strtoull(argv[3], 0, 10));
+  if (argc >= 5 && !strcmp(argv[1], "freeze-islands")) return run_freeze_islands(argv[2], strtoull(argv[3], 0, 10), atol(argv[4]));
   if (argc >= 4 && !strcmp(argv[1], "freeze-bounds")) return run_freeze_bounds(argv[2], strtoull(argv[3], 0, 10));
   if (argc >= 3 && !strcmp(argv[1], "freeze-skip")) return run_freeze_skip(argv[2]);
   if (argc >= 3 && !strcmp(argv[1], "check")) return run_check(argv[2]);
